@@ -154,10 +154,15 @@ func (g *vfc15GenCtx) mutation(label string) vfc15Step {
 		st.Op = "downSeeds"
 	case k < 66:
 		st.Op = "upAll"
-	case k < 69:
+	case k < 67:
 		st.Op = "readdr"
 		st.Broker = rapid.IntRange(0, 4).Draw(t, label+".broker")
 		st.Variant = rapid.IntRange(0, 3).Draw(t, label+".variant")
+	case k < 69:
+		st.Op = "swapBroker"
+		st.Broker = rapid.IntRange(0, 4).Draw(t, label+".broker")
+		st.N = rapid.IntRange(1, 6).Draw(t, label+".newid")
+		st.Variant = rapid.IntRange(0, 2).Draw(t, label+".variant")
 	case k < 74:
 		st.Op = "replicas"
 		st.Topic = g.topic(label + ".topic")
